@@ -335,6 +335,15 @@ theorem Locks_2pl_serializable {L D : Type} [DecidableEq L] (mem0 : L → D)
       cases reqs[i]? <;> rfl
     rw [this]
 
+/-- generated-table obligation tying the code to the hypothesis of `Locks_2pl_serializable`: in every
+Channel method that read-modify-writes the node ledger (claimable_balances / validate_payments ...
+apply_payments) these steps sit in ONE node_state critical section: the node_state events of the
+method, with one `upd` per ledger step, are strict two-phase.  Splitting the section (a
+`get_state()` per step) changes the generated list and this stops proving. -/
+theorem C20_ledger_sections_strict2pl :
+    ∀ p ∈ ledgerPaths, strict2pl p.2 = true ∧ hasRel p.2 = true := by
+  decide +kernel
+
 /-- non-vacuity: a commitment-update-like request (slot 0, then the node ledger 9, both held to the
 end) and a ledger-only request, strict two-phase, interleaved (thread 0 acquires slot 0 and updates it,
 thread 1 runs completely, thread 0 continues): the execution completes, thread 1 commits first, and
